@@ -68,8 +68,11 @@ def judge(chk, prop, cases, real, model, path, stats):
     keys = KEYS[prop]
     for i, case in enumerate(cases):
         cfg, data, argt, value = case
-        chk.count()
         rl = real[i]
+        if rl.startswith("SKIPPED"):
+            stats["skipped_after_crashes"] += 1
+            continue
+        chk.count()
         why = compare_with_spec(prop, case, rl)
         d = S.parse_line(rl)
         stats["type:" + cfg.ty] += 1
